@@ -21,7 +21,12 @@ PROPS = {
         'statement_coverage': '',
     },
     'C02': {'theorems': [], 'eval_keys': ['code_objects'], 'rule': PROGRAM_RULE},
-    'C13': {'theorems': [], 'eval_keys': ['code_objects'], 'rule': PROGRAM_RULE},
+    'C13': {
+        'claimed': True,
+        'level_text': "Proved for every decoded instruction list (any offsets, any jumps - no bound): the block-building half of bytes_to_blocks returns blocks that concatenate to exactly the instruction sequence in order (only jump operands rewritten to block indices), none empty; there are exactly as many blocks as instructions whose offset is 0 or a jump target (no more, no fewer); grouping succeeds whenever the code starts at offset 0; every jump's block index is the rank of its target among the sorted targets and is smaller than the number of targets (C13_partition, C13_block_count, C13_total, C13_jump_index_in_targets). Not yet a theorem: that the number of targets equals the number of blocks (needs 'every jump target is an instruction start', a fact about compiled code) and that offsets produced by _parse_bytes are the instruction starts; those are decided by the correspondence (model decode = implementation on every code object) and the direct oracle against the jump-target set computed from dis.get_instructions.",
+        'theorems': ['CDV.Props.C13.C13_partition', 'CDV.Props.C13.C13_block_count', 'CDV.Props.C13.C13_total', 'CDV.Props.C13.C13_jump_index_in_targets'],
+        'modules': ['CDVProofs.Blocks', 'CDVProofs.Props.C13'],
+        'eval_keys': ['code_objects'], 'rule': PROGRAM_RULE},
     'C09': {'theorems': [], 'eval_keys': ['code_objects'], 'rule': PROGRAM_RULE},
     'C14': {'theorems': [], 'eval_keys': ['code_objects'], 'rule': PROGRAM_RULE},
     'C04': {
@@ -71,7 +76,12 @@ PROPS = {
         'rule': PROGRAM_RULE + '; each decoded and normalized CodeData, plus synthetic CodeData with generated constants (nested tuples/frozensets to depth 4, edge floats/ints/strings/bytes/complex, lone surrogates) in every position; distinct = distinct documents',
     },
     'C08': {
-        'theorems': [],
+        'claimed': True,
+        'level_text': "Proved for all constants at any nesting of tuples and frozensets (no bound): Constant equality (equality of constant_key) is reflexive, symmetric and transitive; it never identifies values of different types (int/bool/float/complex, str/bytes, tuple/frozenset), distinguishes non-NaN floats by bit pattern (so 0.0 and -0.0), is pointwise inside tuples, and identifies all NaNs; position overrides are part of the value; dataclass equality of whole CodeData (nested code included) is reflexive and symmetric (C08_*). Not theorems: the hash contract (hash is computed from the same key; that Python's hash respects equality of tuples/frozensets/str is a runtime fact), immutability (frozen dataclasses: exhaustive setattr/delattr probe over every field of every class on each interpreter), 'equal data encode to identical code' and the agreement of the partition with CPython's own _PyCode_ConstantKey - those are decided by the correspondence (model consteq = implementation == on every generated pair) and the direct oracle (ctypes _PyCode_ConstantKey as reference partition, set/dict membership, pairs of CodeData obtained by different routes).",
+        'theorems': ['CDV.Props.C08.C08_eq_refl', 'CDV.Props.C08.C08_eq_symm', 'CDV.Props.C08.C08_eq_trans', 'CDV.Props.C08.C08_data_eq_refl', 'CDV.Props.C08.C08_data_eq_symm',
+                     'CDV.Props.C08.C08_int_ne_bool', 'CDV.Props.C08.C08_int_ne_float', 'CDV.Props.C08.C08_bool_ne_float', 'CDV.Props.C08.C08_float_ne_complex', 'CDV.Props.C08.C08_str_ne_bytes',
+                     'CDV.Props.C08.C08_tuple_ne_fset', 'CDV.Props.C08.C08_float_exact', 'CDV.Props.C08.C08_signed_zero', 'CDV.Props.C08.C08_tuple_pointwise', 'CDV.Props.C08.C08_nan_identified', 'CDV.Props.C08.C08_override_matters'],
+        'modules': ['CDVProofs.Constants', 'CDVProofs.BeqData', 'CDVProofs.Props.C08'],
         'eval_keys': ['pairs', 'fields_checked'],
         'rule': 'pairs of Constant values built from generated constants and their fresh-identity / numerically-equal companions, partition compared with ctypes _PyCode_ConstantKey; pairs of CodeData obtained by different routes (decode twice, JSON load, normalize); every field of every dataclass for immutability',
     },
